@@ -307,7 +307,9 @@ def _fmt(t, depth=0):
         if t[0] == "role":
             return str(t[1])
         if t[0] == "cur":
-            return "cur%d" % t[1]
+            return "cur%d" % t[1] if len(t) > 1 else "cur"
+        if t[0] == "item" and len(t) == 1:
+            return "item"
         if t[0] == "item" and isinstance(t[1], int):
             return "item%d" % t[1]
         if t[0] == "ceildiv":
@@ -341,3 +343,58 @@ def rewrite_signature(sig, rules):
             return [rw(y) for y in x]
         return x
     return {"loops": rw(sig["loops"]), "events": rw(sig["events"])}
+
+
+def anonymise(sig):
+    """identity-free view of a signature: which variable carries a value and how exits merge is forgotten,
+    the formulas (updates, loop conditions, emitted terms, iteration sources, nesting depth) are kept.
+    Used only to compare a function whose helpers were inlined (extra copies of loop variables) with its reference."""
+    def A(t):
+        def f(x):
+            if x[0] == "cur":
+                return ("cur",)
+            if x[0] == "item":
+                return ("item",)
+            if x[0] == "ite":
+                x = ("phi", (x[2], x[3]))
+            if x[0] == "phi":
+                flat = []
+                for y in x[1]:
+                    if isinstance(y, tuple) and y and y[0] == "phi":
+                        flat.extend(y[1])
+                    else:
+                        flat.append(y)
+                u = tuple(sorted(set(flat), key=repr))
+                return u[0] if len(u) == 1 else ("phi", u)
+            return x
+        return T.normalise(T.map_term(t, f))
+
+    def depth(i):
+        d = 0
+        p = sig["loops"][i][0]
+        while p is not None:
+            d += 1
+            p = sig["loops"][p][0]
+        return d
+    loops_ = sorted(((depth(i), l[1], A(l[2]) if l[2] is not None else None, tuple(sorted(((A(c), v) for c, v in l[3]), key=repr)))
+                     for i, l in enumerate(sig["loops"])), key=repr)
+    updates = sorted({A(u) for l in sig["loops"] for (_, ini, upd) in l[4] for u in upd}, key=repr)
+    inits = sorted({A(u) for l in sig["loops"] for (_, ini, upd) in l[4] for u in ini}, key=repr)
+    events = [(depth(lp) + 1 if lp is not None else 0, s, tuple(A(a) for a in args)) for lp, s, args in sig["events"]]
+    return {"loops": loops_, "updates": updates, "events": events}
+
+
+def diff_anonymised(a, b):
+    x, y = anonymise(a), anonymise(b)
+    out = []
+    if x["loops"] != y["loops"]:
+        out.append("loops (nesting, kind, source, condition) differ: %s  vs  %s" % (fmt_any(tuple(x["loops"]))[:300], fmt_any(tuple(y["loops"]))[:300]))
+    if x["updates"] != y["updates"]:
+        out.append("loop-carried update formulas differ: %s  vs  %s" % (fmt_any(tuple(x["updates"]))[:300], fmt_any(tuple(y["updates"]))[:300]))
+    if x["events"] != y["events"]:
+        for i, (p, q) in enumerate(zip(x["events"], y["events"])):
+            if p != q:
+                out.append("operation %d differs: %s  vs  %s" % (i, fmt_any(p)[:200], fmt_any(q)[:200]))
+        if len(x["events"]) != len(y["events"]):
+            out.append("number of emitted operations differs")
+    return out
